@@ -3,6 +3,52 @@
 import json, glob, os, re
 HERE = os.path.dirname(os.path.dirname(os.path.abspath(__file__)))
 STRENGTHENED = {
+ "C14-w4m1": "C14 gained the 'gzip path with CRLF line ends' input form (C13 gained CRLF forms too)",
+ "C14-w4m2": "C14 alphabet gained the '#!pragma' comment line",
+ "C12-w4m1": "reported by C06 (query side of the bin index)",
+ "C12-w4m2": "reported by C10, which now checks every stored row's bin against its coordinates and replaces a feature across a bin boundary",
+ "C12-w4m3": "reported by C15, which now places features across the first bin boundary and checks each yielded feature's bin",
+ "C07-w4m2": "C07 (and C01) gained coordinates beyond 2**53",
+ "C07-w4m3": "C07 escape characters gained %00 and %1F",
+ "C06-w4m1": "C06 gained a form that consumes two region() results in lock step",
+ "C08-w4m2": "C08 now edits a dialect dictionary between two uses",
+ "C08-w4m3": "C08 gained 15 long strings, each parsed under a 20 s termination guard",
+ "C18-w4m1": "C18 FASTA gained IUPAC ambiguity codes",
+ "C18-w4m2": "C18 transcripts can now begin at coordinate 1",
+ "C18-w4m3": "C18 gained a FASTA with an outdated .fai lying next to it",
+ "C15-w4m1": "C15 gained the always_return_list dimension",
+ "C15-w4m2": "C15 gained a neighbour carrying two ID values",
+ "C16-w4m1": "C16 gained one 1700-feature database (a 1300-member run)",
+ "C16-w4m3": "C16 now hands the criteria over as list / tuple / iterator / generator (rotated)",
+ "C11-w4m1": "C11 gained a 662-entry featuretype collection",
+ "C11-w4m2": "C11 gained the interleaved listing/count loop",
+ "C17-w4m1": "C17 equality part now hashes a feature, edits it into another one and compares again",
+ "C09-w4m1": "reported by C07, whose GTF-style values gained raw '=', '&', '%', '+'",
+ "C09-w4m2": "reported by C10, which now compares the dialect reported live and after reopening with the original one",
+ "C09-w4m3": "reported by C01, which now compares the database dialect before and after printing",
+ "C13-w4m1": "file shapes gained values containing U+2028 / U+0085 (and a literal '+')",
+ "C13-w4m3": "C13 gained a path whose name contains '.gz' without being a gzip file",
+ "C19-w4m1": "C19 gained an old database whose features had all been deleted",
+ "C19-w4m2": "C19 gained 'new input given as Feature objects' with an absolute expectation for the directives",
+ "C20-w4m2": "C20 gained one solitary 13 000-line import (12 000 second-level relations)",
+ "C20-w4m3": "reported by C10, which gained a set_pragmas event and a fingerprint of the library's module-level settings",
+ "C02-w4m1": "C02: one id now contains a comma (written %2C)",
+ "C02-w4m2": "C02 gained one 7800-line file (6000 second-level relations) in three line orders",
+ "C10-w4m2": "C10 gained one large history (1000 ids deleted in a single call)",
+ "C10-w4m3": "C10 now leaves an unrelated, newer-looking .bak next to the database before every backed-up operation",
+ "C04-w4m1": "reported by C19 (same change as C19-m1)",
+ "C04-w4m2": "C04 GTF part gained custom id_specs with inference enabled",
+ "C04-w4m3": "C04 GTF part gained force_gff=True",
+ "C05-w4m1": "C05 arrival alphabet gained undefined ('.') coordinates",
+ "C05-w4m2": "C05 gained 14-16 arrival sequences (thirteen column-distinct variants, then arrivals agreeing with late ones)",
+ "C05-w4m3": "C05 gained the 'merge' strategy with verbose='debug'",
+ "C03-w4m1": "C03 gained one 2400-line GTF (1200 transcripts)",
+ "C03-w4m2": "C03: one gene id now contains a blank",
+ "C03-w4m3": "C03 input files are now named *.gtf / *.gff / *.gff3 / *.txt in rotation",
+ "C01-w4m1": "file shapes gained a literal '+' in a value",
+ "C01-w4m2": "C01 gained sort_attribute_values=True on unsorted input and compares the feature before/after printing",
+ "C01-w4m3": "file shapes gained coordinates beyond 2**53",
+
  "C18-w3m1": "C18 sequence part gained a FASTA path whose content was replaced between two calls",
  "C18-w3m2": "C18 bed12 part gained the always_return_list dimension",
  "C08-w3m2": "C08 now prints every feature twice and compares the attributes before/after",
@@ -62,7 +108,13 @@ text = """
 Each change below was written by a fresh sub-agent that was given only the text of one property and a
 scratch git worktree of /repo (nothing from /verif); the third wave (ids `*-w3m*`) was additionally told
 which changes earlier agents had proposed for that property (their own notes, nothing about the checks)
-and asked for different mechanisms - state kept across calls, ordering, boundaries, rarely used options. Each was then confirmed here in a scratch copy
+and asked for different mechanisms - state kept across calls, ordering, boundaries, rarely used options;
+the fourth wave (`*-w4m*`) was asked for changes that need SCALE (inputs larger than internal thresholds),
+long histories, rare values, environment conditions or three-way option interactions, i.e. changes aimed
+at what small-scope exhaustive checking is most likely to miss. Of the 160 changes, 80 were not reported
+when first tried; all were after strengthening. Scale is handled by adding, per property, one or two
+deliberately large executions next to the exhaustive small-scope exploration (C02, C03, C10, C16, C20);
+those are single cases, not an exhaustive sweep, and are labelled so in the evidence. Each was then confirmed here in a scratch copy
 outside /repo and /verif (`tools/seed.py`): the agent's demonstration passes on the unmodified copy, the
 patch applies, the pinned suite still shows 74 passed, the demonstration fails on the patched copy; the
 quick check(s) were run against the patched copy with `GV_REPO`. Kept as `/verif/seeded/<id>/`
